@@ -289,11 +289,15 @@ def op_ambiguous_ref(form, r):
     (a, aa) = _pick(r, conts)
     a["ch"].append({"k": "q", "c": {"type": "text", "name": tok, "label": "one"}})
     # the second copy lives in another section (or at top level)
+    # 2..5 elements carry the name, each in a different section (or at top level)
     others = [c for c in conts if c[0] is not a]
-    if others and r.random() < 0.6:
-        _pick(r, others)[0]["ch"].append({"k": "q", "c": {"type": "text", "name": tok, "label": "two"}})
-    else:
-        form["nodes"].append({"k": "q", "c": {"type": "text", "name": tok, "label": "two"}})
+    r.shuffle(others)
+    copies = r.choice([1, 1, 2, 2, 3, 4])
+    homes = [c[0]["ch"] for c in others[:copies]]
+    if len(homes) < copies:
+        homes.append(form["nodes"])
+    for i, home in enumerate(homes):
+        home.append({"k": "q", "c": {"type": "text", "name": tok, "label": f"copy {i + 2}"}})
     form["nodes"].append({"k": "q", "c": {"type": "text", "name": f"{TOK}_user", "label": "u", "relevant": "${%s} = 'x'" % tok}})
     return Plan(form, tokens=[tok], depth=len(aa) + 1, stable=False)
 
@@ -691,7 +695,8 @@ def op_save_to_problem(form, r):
     if not form.get("entities"):
         form["entities"] = [{"dataset": "trees", "label": "'x'"}]
     if kind == "in-repeat":
-        reps = [(n, a) for n, a in _containers(form) if n["k"] == "r"]
+        reps = [(n, a) for n, a in _containers(form) if n["k"] == "r" or any(x["k"] == "r" for x in a)]
+        reps = [(n, a) for n, a in reps if not n["c"].get("appearance", "").startswith("table-list")]
         c = _pick(r, reps)
         if not c:
             return None
